@@ -17,7 +17,7 @@ IMPORTS = "Base Fetch"
 RULE = ("histories of 6-22 ops over 3 upstream outputs and 2 two-input nodes (typed/untyped x strict/non-strict per case); "
         "the hint is int (70%), builtin callable or typing.Callable (admitted values are then callable ints); values: ints, a non-int, NOT_DATA; up to 3 prioritised connections per input; receiver chains up to length 3. "
         "Non-trivial: some input with >=2 connections was fetched/run AND some operation was refused. Distinct by content.")
-TRUSTED = ["hints reduced to admitted-or-not in this layer (int, builtin callable, typing.Callable; the hint calculus is C04); 'bad' values are python strings"]
+TRUSTED = ["hints reduced to admitted-or-not in this layer (int, builtin callable, typing.Callable; the hint calculus is C04); 'bad' values are python strings, or objects that carry a `magnitude` attribute the hint would admit"]
 ASSUMPTIONS = ["a TypeError raised by the value setter during fetch counts as 'refused' like a ReadinessError (the function is "
                "not called, outputs untouched, node not failed): the statement's first and third sentence meet there",
                "hint mutation after construction is not an assignment path"]
@@ -87,12 +87,29 @@ FLAVOUR = {"int": (UpI, DT), "callable": (UpIc, DTc), "Callable": (UpIC, DTC)}
 _WRAP = [False]     # whether admitted values are delivered as CInt (set per case by build)
 
 
+class Mag:
+    """a value the hint rejects that carries an attribute `magnitude` the hint would admit (only real pint quantities are
+    to be judged by their magnitude)"""
+    def __init__(self, k, wrap):
+        self.k = k
+        self.magnitude = CInt(k) if wrap else k
+
+    def __str__(self):
+        return f"bad{self.k}"
+
+    def __eq__(self, other):
+        return isinstance(other, Mag) and other.k == self.k
+
+    def __hash__(self):
+        return hash(("Mag", self.k))
+
+
 def val_py(v):
     from pyiron_workflow.channels import NOT_DATA
     if v is None:
         return NOT_DATA
     if isinstance(v, list):
-        return f"bad{v[1]}"
+        return Mag(v[1], _WRAP[0]) if v[1] >= 10 else f"bad{v[1]}"
     return CInt(v) if _WRAP[0] else v
 
 
@@ -100,8 +117,8 @@ def val_obs(x):
     from pyiron_workflow.channels import NOT_DATA
     if x is NOT_DATA:
         return "nd"
-    if isinstance(x, str):
-        return ["bad", int(x[3:])]
+    if isinstance(x, (str, Mag)):
+        return ["bad", int(str(x)[3:])]
     return int(x)
 
 
@@ -111,14 +128,14 @@ def gen(rng):
     if h < 0.3:
         # the hint the typed channels carry: int, or one whose admission takes another branch of the value check
         case["hint"] = "callable" if h < 0.2 else "Callable"
-    vals = [0, 1, 2, 5, 9, ["bad", 1], ["bad", 2], None]
+    vals = [0, 1, 2, 5, 9, ["bad", 1], ["bad", 11], None]
     if rng.random() < 0.3:
         # a non-int smuggled into a typed input while strictness is off, strictness back on, then a run:
         # the readiness gate (not the setter) has to refuse
         n = rng.randrange(2)
         c = rng.choice([3, 4] if n == 0 else [5, 6])
         other = ({3, 4} if n == 0 else {5, 6}) - {c}
-        case["ops"] += [["strict", c, False], ["assign", c, ["bad", rng.randint(1, 3)]], ["assign", other.pop(), rng.randint(0, 9)],
+        case["ops"] += [["strict", c, False], ["assign", c, ["bad", rng.choice([1, 2, 3, 12])]], ["assign", other.pop(), rng.randint(0, 9)],
                         ["strict", c, True]]
         if rng.random() < 0.7:
             case["ops"].append(["run", n, []])
@@ -128,7 +145,7 @@ def gen(rng):
         case["u1_typed"] = True
         n = rng.randrange(2)
         c = rng.choice([3, 4] if n == 0 else [5, 6])
-        case["ops"] += [["strict", 1, False], ["setout", 1, ["bad", rng.randint(1, 3)]], ["connect", c, 1],
+        case["ops"] += [["strict", 1, False], ["setout", 1, ["bad", rng.choice([1, 2, 3, 13])]], ["connect", c, 1],
                         rng.choice([["fetch", n], ["run", n, []]])]
     for _ in range(rng.randint(6, 22)):
         r = rng.random()
